@@ -169,7 +169,8 @@ theorem get_put_same (s : State) (h : Hash) (p : Peer) (st : Status) :
     intro e he
     have := (List.mem_filter.mp he).2
     simpa using this
-  simp [this, Entry.is]
+  rw [this]
+  simp [Entry.is]
 
 theorem find_filter_other {α} (l : List α) (q r : α → Bool) (hqr : ∀ a, q a = true → r a = true) :
     (l.filter r).find? q = l.find? q := by
@@ -235,6 +236,7 @@ theorem addPending_within (cfg : Config) (s : State) (p : Peer) (h : Hash) (nbrs
       · intro h'
         have h1 := count_put_le s h p .pending h'
         have h2 := hw h'
+        show (count (put s h p .pending) h' : Int) ≤ cfg.max
         by_cases hh : h' = h
         · subst hh; simp at h1; omega
         · simp [hh] at h1; omega
@@ -401,11 +403,9 @@ theorem announceLoop_dialled (cfg : Config) (self : Peer) (h : Hash) :
           intro q; simp [blacklisted, findB, hab.1, hab.2]
         cases res
         case atCapacity =>
-          simp only
           refine ⟨rfl, rfl, ?_⟩
           intro q hq; exact .inl (by simpa using hq)
         case ok =>
-          simp only
           obtain ⟨h1, h2, h3⟩ := ih s' (p :: acc)
           refine ⟨h1.trans hab.1, h2.trans hab.2, ?_⟩
           intro q hq
@@ -415,7 +415,6 @@ theorem announceLoop_dialled (cfg : Config) (self : Peer) (h : Hash) :
             · exact .inl h
           · exact .inr ⟨List.mem_cons_of_mem _ h, h', by rw [← hbs]; exact h''⟩
         all_goals
-          simp only
           obtain ⟨h1, h2, h3⟩ := ih s' acc
           refine ⟨h1.trans hab.1, h2.trans hab.2, ?_⟩
           intro q hq
@@ -470,7 +469,8 @@ theorem blUntil_blacklisted {h : Hash} {p : Peer} {T : Int} {s : State} (hb : Bl
     rw [List.find?_eq_none] at hf
     exact absurd hk (by simpa using hf e he)
   | some e' =>
-    have h1 := hall e' (List.mem_of_find?_eq_some hf) (List.find?_some hf)
+    have hk' : e'.is h p = true := by have := List.find?_some hf; simpa using this
+    have h1 := hall e' (List.mem_of_find?_eq_some hf) hk'
     simp [BEntry.live]; omega
 
 theorem blUntil_of_blacklist_eq {h : Hash} {p : Peer} {T : Int} {s s' : State}
